@@ -367,6 +367,9 @@ func (p *Program) verifyUnit(ct *Contract, subst map[string]int64, suffix string
 				post.vars[name] = gv
 			}
 		}
+		for _, uf := range ct.UnfoldsAtReturn {
+			p.unfoldSpec(e, uf, post, r.Cond)
+		}
 		for _, us := range ct.UsesAtReturn {
 			p.useLemma(e, ct, us, post, r.Cond)
 		}
@@ -873,6 +876,22 @@ func (e *Exec) assignTargets(src string, env *SpecEnv) []assignTarget {
 		}
 		for _, l := range leavesOf(st.Elem()) {
 			out = append(out, assignTarget{key: "[]" + typeKey(st.Elem()) + l.Path, heap: true, ref: sv.L[0]})
+		}
+		return out
+	}
+	if strings.HasPrefix(src, "anyelems(") && strings.HasSuffix(src, ")") {
+		// every backing array of this element type (an append may move the elements to a new array)
+		x, err := parseSpecExpr(src[9 : len(src)-1])
+		if err != nil {
+			e.fail("assigns entry %q: %v", src, err)
+		}
+		sv := env.eval(x)
+		st, ok := sv.Typ.Underlying().(*types.Slice)
+		if !ok {
+			e.fail("assigns entry %q: not a slice", src)
+		}
+		for _, l := range leavesOf(st.Elem()) {
+			out = append(out, assignTarget{key: "[]" + typeKey(st.Elem()) + l.Path, heap: false})
 		}
 		return out
 	}
